@@ -1,4 +1,245 @@
-import FloxProofs.Members
+/-
+  C06 — position-sensitive reductions respect global positions across chunk boundaries.
+
+  These combines are NOT commutative: correctness depends on blocks being combined in array order at every level of
+  the tree, and (arg-reductions) on per-block indices being global ones.  What is proved:
+
+    §1  arg-reductions.  The chunk stage stores per block and label the pair (extreme value, GLOBAL index of its first
+        occurrence); `_grouped_combine` runs (max, argmax) / (min, argmin) over the stacked pairs in block order.
+        "Leftmost best pair" is associative (`pick1_flatten`), hence the PAIR LAWS: combining the per-block pairs gives
+        (extreme over all members, smallest global index attaining it) – for `argmax` / `argmin` unconditionally, for
+        `nanargmax` / `nanargmin` under `HArgFill` (and FALSE without it: a finding, since repaired in the library).
+        The pair laws are per label; the end-to-end statement for arg-reductions through `runKnown` is checked on
+        concrete inputs only (see the `example`s), not proved in general.
+    §2  `nanfirst` / `nanlast`: order-aware decomposition law (no commutativity used); end to end through
+        `_simple_combine` (float data: C02 §1–§4 apply, the shapes `simple nanfirst nanfirst NaN` /
+        `simple nanlast nanlast NaN` are built-in columns) and through `_grouped_combine` (non-float data: C02 §5;
+        integer blueprint with `INT_MIN` fill: the combined intermediates, `mapreduce_sparse_intdata_partial`)
+    §3  cohorts: block lists must be in ARRAY ORDER (`CohortsSound.blocks_asc`), and this is necessary
+
+  Vocabulary:
+    `Grp.VI`                      a (value, global index) pair, both `Val`
+    `Grp.pick1 k ps`              the leftmost pair of `ps` whose value is best for the arg kernel `k`
+    `Grp.blockPair k junk ps`     what the chunk stage stores for a label whose member pairs in the block are `ps`:
+                                  (`blockVal` of the value column, index selected by the arg kernel; `junk` = the index
+                                  the engine reports when no member is left after dropping NaN)
+    `Grp.combinePair k junk qs`   what `_grouped_combine` computes from the stacked per-block pairs `qs`
+    `Grp.HArgFill k vs`           some member of `vs` is neither NaN nor the value column's fill `∓inf`
+
+  Property theorems only (helper lemmas live in FloxProofs).
+-/
+import FloxProofs.Columns
+import FloxProofs.ArgReduce
+import FloxProofs.ArgReduceExamples
+import FloxProofs.Grouped
+import FloxProofs.GroupedExamples
+import FloxProofs.Cohorts
+import FloxProofs.CohortsExamples
+
 namespace Flox.C06
-theorem placeholder_members_nil (g : Int) (vs : List Val) : members g [] vs = [] := members_nil_left g vs
+
+/-! ## §1 arg-reductions -/
+
+/-- **associativity of "leftmost best"**: picking the leftmost best pair per block and then among the blocks' winners
+    (in block order) is picking once over the concatenation – for all four arg kernels, NaN values included (the order
+    is a strict weak order with NaN as top resp. bottom element).  This is what makes ties across chunk boundaries
+    resolve to the FIRST occurrence in the whole array, at every tree depth. -/
+theorem pick1_flatten (k : Kernel) (pss : List (List Grp.VI)) (hne : pss ≠ []) (hall : ∀ ps ∈ pss, ps ≠ []) :
+    Grp.pick1 k (pss.map (Grp.pick1 k)) = Grp.pick1 k pss.flatten :=
+  Grp.pick1_flatten k pss hne hall
+
+/-- **Pair law, `argmax` / `argmin`** – no hypothesis on the data: combining the per-block (extreme, global index of
+    its first occurrence) pairs in block order with (max, argmax) gives the pair of the concatenated members.
+    (`junkB`, `junkC`, `junk` are never used: every listed block contains the label, `hall`.) -/
+theorem pairLaw_arg (k : Kernel) (hk : k = .argmax ∨ k = .argmin) (junkB : List Grp.VI → Val) (junkC junk : Val)
+    (pss : List (List Grp.VI)) (hne : pss ≠ []) (hall : ∀ ps ∈ pss, ps ≠ []) :
+    Grp.combinePair k junkC (pss.map fun ps => Grp.blockPair k (junkB ps) ps) = Grp.blockPair k junk pss.flatten :=
+  Grp.pairLaw_arg k hk junkB junkC junk pss hne hall
+
+/-- **Pair law, `nanargmax` / `nanargmin`**, blueprint as modelled: chunk `(nanmax, nanargmax)`, combine
+    `(max, argmax)`, value fill `-inf` (mirror image for `nanargmin`).  A block in which all members of the label are
+    NaN contributes the junk pair (`-inf`, `junkB ps`) – in flox the global index of the block's first element,
+    whatever its label.
+
+    Narrower than the property: `H_argfill` – the label has a non-NaN member different from `-inf`.  It is necessary:
+    `nanargmax_grouped_counterexample` (the junk pair ties with a genuine `-inf` and wins by position).  The real
+    library was REPAIRED after this finding: the registry's combine for `nanargmax` / `nanargmin` is now
+    `(nanmax, nanargmax)` with a NaN value fill, so all-NaN blocks never win; the pair law under `HArgFill` documents the
+    old blueprint, which is the one in the model. -/
+theorem pairLaw_nanarg (k : Kernel) (hk : k = .nanargmax ∨ k = .nanargmin) (junkB : List Grp.VI → Val)
+    (junkC junk : Val) (pss : List (List Grp.VI)) (hne : pss ≠ [])
+    (H_argfill : Grp.HArgFill k (pss.flatten.map (·.1))) :
+    Grp.combinePair k junkC (pss.map fun ps => Grp.blockPair k (junkB ps) ps) = Grp.blockPair k junk pss.flatten :=
+  Grp.pairLaw_nanarg k hk junkB junkC junk pss hne H_argfill
+
+/-- **FINDING (model and, before the repair, the real library): `nanargmax` through `_grouped_combine` returns a wrong
+    index** when a label is all-NaN in one block and its genuine maximum is `-inf`.  Data `[nan, nan | nan, -inf]`, all
+    label 0: flox answers 0 (a NaN element), NumPy's `nanargmax` answers 3, and so does flox with a single block.
+    Every hypothesis one could reasonably ask for holds; only `HArgFill` fails. -/
+theorem nanargmax_grouped_counterexample :
+    CodesOK [0, 0, 0, 0] 1
+    ∧ ¬ Grp.HArgFill .nanargmax (members 0 [0, 0, 0, 0] [.nan, .nan, .nan, .ninf])
+    ∧ runKnown (E2E.mkCall Grp.AEx.Rnanargmax .npg 1 2) (.mapreduce false) true [2, 2] (codeKeys [0, 0, 0, 0])
+        [.nan, .nan, .nan, .ninf] = .ok [Val.fin 0]
+    ∧ specResult .nanargmax Grp.AEx.Rnanargmax [0, 0, 0, 0] [.nan, .nan, .nan, .ninf] 1 = .ok [Val.fin 3]
+    ∧ runKnown (E2E.mkCall Grp.AEx.Rnanargmax .npg 1 2) (.mapreduce false) true [4] (codeKeys [0, 0, 0, 0])
+        [.nan, .nan, .nan, .ninf] = .ok [Val.fin 3] :=
+  Grp.AEx.nanargmax_grouped_counterexample
+
+/-- the junk index is the block's first element WHATEVER ITS LABEL: label 0 gets index 0, which belongs to label 1 -/
+theorem nanargmax_grouped_counterexample_other_label :
+    runKnown (E2E.mkCall Grp.AEx.Rnanargmax .npg 2 2) (.mapreduce false) true [2, 2] (codeKeys [1, 0, 0, 0])
+        [.fin 3, .nan, .nan, .ninf] = .ok [Val.fin 0, Val.fin 0]
+    ∧ specResult .nanargmax Grp.AEx.Rnanargmax [1, 0, 0, 0] [.fin 3, .nan, .nan, .ninf] 2
+        = .ok [Val.fin 3, Val.fin 0] :=
+  Grp.AEx.nanargmax_grouped_counterexample_other_label
+
+/-- the mirror image for `nanargmin` and `+inf` -/
+theorem nanargmin_grouped_counterexample :
+    runKnown (E2E.mkCall Grp.AEx.Rnanargmin .npg 1 2) (.mapreduce false) true [2, 2] (codeKeys [0, 0, 0, 0])
+        [.nan, .nan, .nan, .pinf] = .ok [Val.fin 0]
+    ∧ specResult .nanargmin Grp.AEx.Rnanargmin [0, 0, 0, 0] [.nan, .nan, .nan, .pinf] 1 = .ok [Val.fin 3] :=
+  Grp.AEx.nanargmin_grouped_counterexample
+
+/-! ## §2 `nanfirst` / `nanlast` -/
+
+/-- **order-aware decomposition**: `nanfirst` over the per-block `nanfirst` values IN BLOCK ORDER is the first non-NaN
+    member of the whole group; blocks where the group is absent or all-NaN hold the fill NaN and are skipped.  No
+    commutativity is used (none holds, see the `example` below). -/
+theorem combine_nanfirst (parts : List (List Val)) :
+    combineVal .nanfirst (parts.map (blockVal .nanfirst Val.nan)) = blockVal .nanfirst Val.nan parts.flatten :=
+  Flox.combine_nanfirst parts
+
+theorem combine_nanlast (parts : List (List Val)) :
+    combineVal .nanlast (parts.map (blockVal .nanlast Val.nan)) = blockVal .nanlast Val.nan parts.flatten :=
+  Flox.combine_nanlast parts
+
+/-- and the block value is what the name says: the first / last non-NaN member in array order, NaN if there is none -/
+theorem blockVal_nanfirst_nanlast (ms : List Val) :
+    blockVal .nanfirst Val.nan ms = firstNonNaN ms ∧ blockVal .nanlast Val.nan ms = firstNonNaN ms.reverse :=
+  ⟨Flox.blockVal_nanfirst ms, Flox.blockVal_nanlast ms⟩
+
+/-- **`nanfirst` / `nanlast` through `_grouped_combine`, end to end** (the plan flox uses on non-float data), for a
+    blueprint with a `Shape`: the instance of `C02.mapreduce_grouped_eq_spec` for `k ∈ {nanfirst, nanlast}` –
+    every chunking, every `split_every`; the result is `Spec.reduce` with NumPy's `nanfirst` / `nanlast` of each
+    label's members in array order. -/
+theorem nanfirst_nanlast_grouped_eq_spec (R : Resolved) (k : Kernel) (hk : k = .nanfirst ∨ k = .nanlast)
+    (c : Call) (n : Nat) (floatData : Bool) (chunks : List Nat) (codes : List Int) (vals : List Val)
+    (hR : c.R = R) (heng : c.eng = .npg) (hn : c.ngroups = n)
+    (hshape : R.shape? = some (.simple k k Val.nan)) (hcodes : CodesOK codes n) (hlen : codes.length = vals.length)
+    (hne : codes ≠ []) (H_dropped : Grp.HDropped R codes vals)
+    (hchunks : chunks ≠ []) (hsum : chunks.sum = codes.length)
+    (hcombine : useGroupedCombine c floatData = true) :
+    runKnown c (.mapreduce false) floatData chunks (codeKeys codes) vals = specResult k R codes vals n :=
+  Grp.mapreduce_grouped_eq_spec R (.simple k k Val.nan) c n floatData chunks codes vals hR heng hn hshape hcodes hlen
+    hne (by rcases hk with rfl | rfl <;> intro h <;> cases h) H_dropped hchunks hsum hcombine
+
+/-- **integer-typed `nanfirst` / `nanlast`** (`_initialize_aggregation` resolves them with the intermediate fill
+    `INT_MIN`, so the blueprint has no `Shape`): for ANY intermediate fill `f` and NaN-free values (integers cannot hold
+    NaN), map-reduce without reindexing + `_grouped_combine` yields – for every chunking and every `split_every` – the
+    found labels (`Grp.foundOf c.sort keys`: distinct non-missing labels, sorted or in order of first appearance) and
+    per label the first / last member in array order (`Grp.membersK (some r) keys vals`: the values whose label is
+    `r`, in array order).  PARTIAL: this is the combined intermediate; the finalization step for this blueprint is
+    checked on concrete data only (`Grp.GEx`). -/
+theorem mapreduce_sparse_intdata_partial (c : Call) (k : Kernel) (hk : k = .nanfirst ∨ k = .nanlast) (f : Val)
+    (chunks : List Nat) (keys : List Key) (vals : List Val) (se : Nat)
+    (harg : c.R.isArg = false) (hchunk : c.R.chunk = [k]) (hcombine : c.R.combine = [k])
+    (hfills : c.R.interFills = [f]) (heng : c.eng = .npg)
+    (hchunks : chunks ≠ []) (hsum : chunks.sum = keys.length) (hlen : keys.length = vals.length)
+    (hnonan : ∀ v ∈ vals, v.isNaN = false) (hpres : presentKeys keys ≠ []) :
+    groupedCombine c.R .npg c.sort (treeReduce (groupedCombine c.R .npg c.sort) se
+        (blockStage c false chunks keys vals))
+      = { groups := (Grp.foundOf c.sort keys).map some,
+          cols := [(Grp.foundOf c.sort keys).map fun r => kEval k (Grp.membersK (some r) keys vals)] } :=
+  Grp.mapreduce_sparse_intdata_partial c k hk f chunks keys vals se harg hchunk hcombine hfills heng hchunks hsum hlen
+    hnonan hpres
+
+/-! ## §3 cohorts take their blocks in array order -/
+
+/-- **cohorts, any sound structure** (= `C02.cohorts_eq_spec`; applies to the `nanfirst` / `nanlast` shapes on float
+    data).  Soundness includes `blocks_asc`: every cohort's block list is STRICTLY ASCENDING, i.e. the per-cohort tree
+    sees the blocks in array order.  flox builds the lists from a sorted sparse-matrix column, so it holds; that it
+    cannot be dropped is `blocks_asc_counterexample_order`. -/
+theorem cohorts_eq_spec (R : Resolved) (s : Shape) (c : Call) (n : Nat) (floatData : Bool)
+    (chunks : List Nat) (codes : List Int) (vals : List Val) (cs : List (List Nat × List Rat))
+    (hR : c.R = R) (heng : c.eng = .npg) (hn : c.ngroups = n) (hknown : c.knownLabels = true)
+    (hshape : R.shape? = some s) (hlen : codes.length = vals.length)
+    (hsound : CohortsSound chunks codes n cs)
+    (H_absent : ∀ co ∈ cs, ∀ g : Nat, ((g : Nat) : Rat) ∈ co.2 → HAbsent R (members (Int.ofNat g) codes vals))
+    (H_minmax : HMinMax R s)
+    (H_fill : HCohortFill c R n cs)
+    (hsum : chunks.sum = codes.length)
+    (hcombine : useGroupedCombine c floatData = false) :
+    runKnown c (.cohorts cs) floatData chunks (codeKeys codes) vals = specResult s.kernel R codes vals n :=
+  Flox.cohorts_eq_spec R s c n floatData chunks codes vals cs hR heng hn hknown hshape hlen hsound H_absent H_minmax
+    H_fill hsum hcombine
+
+/-- what soundness demands of the block lists, spelled out -/
+theorem cohortsSound_blocks_in_array_order (chunks : List Nat) (codes : List Int) (n : Nat)
+    (cs : List (List Nat × List Rat)) (h : CohortsSound chunks codes n cs) :
+    ∀ co ∈ cs, co.1.Pairwise (· < ·) ∧ (∀ b ∈ co.1, b < chunks.length) :=
+  fun co hco => ⟨h.blocks_asc co hco, h.blocks_lt co hco⟩
+
+/-- **array order of a cohort's blocks is necessary**: `nanfirst` over two blocks `[1] [2]` of one label, the cohort
+    lists its blocks as `[1, 0]`: the result is 2, the specification says 1 -/
+theorem blocks_asc_counterexample_order :
+    E2E.RnanfirstNaN.shape? = some (.simple .nanfirst .nanfirst Val.nan)
+    ∧ runKnown (E2E.mkCall E2E.RnanfirstNaN .npg 1 2) (.cohorts [([1, 0], [0])]) true [1, 1] (codeKeys [0, 0])
+        [Val.fin 1, Val.fin 2] = .ok [Val.fin 2]
+    ∧ specResult .nanfirst E2E.RnanfirstNaN [0, 0] [Val.fin 1, Val.fin 2] 1 = .ok [Val.fin 1] :=
+  E2E.blocks_asc_counterexample_order
+
+/-! ### non-vacuity and concrete end-to-end evidence -/
+
+/-- the pair law on three blocks with a tie across blocks (5 at global indices 2 and 4) and a NaN: NumPy's `argmax`
+    propagates NaN (index 8); without the NaN the tie resolves to the first occurrence -/
+example : Grp.combinePair .argmax (.fin 99) (Grp.AEx.pssA.map fun ps => Grp.blockPair .argmax (.fin 77) ps)
+      = Grp.blockPair .argmax (.fin 55) Grp.AEx.pssA.flatten
+    ∧ Grp.blockPair .argmax (.fin 55) Grp.AEx.pssA.flatten = (.nan, .fin 8)
+    ∧ Grp.blockPair .argmax (.fin 55) (Grp.AEx.pssA.flatten.filter fun p => !p.1.isNaN) = (.fin 9, .fin 9)
+    ∧ Grp.blockPair .argmax (.fin 55) ((Grp.AEx.pssA.flatten.filter fun p => !p.1.isNaN).dropLast) = (.fin 5, .fin 2) :=
+  ⟨pairLaw_arg .argmax (Or.inl rfl) (fun _ => .fin 77) (.fin 99) (.fin 55) Grp.AEx.pssA (by decide)
+    (by decide +kernel), by decide +kernel, by decide +kernel, by decide +kernel⟩
+
+/-- `pairLaw_nanarg` applies with an all-NaN first block; ties are broken to the left (3 at global indices 2 and 5) -/
+example : Grp.combinePair .nanargmax (.fin 99)
+      (Grp.AEx.pssN.map fun ps => Grp.blockPair .nanargmax ((ps.headD (.nan, .nan)).2) ps)
+      = Grp.blockPair .nanargmax (.fin 55) Grp.AEx.pssN.flatten
+    ∧ Grp.blockPair .nanargmax (.fin 55) Grp.AEx.pssN.flatten = (.fin 3, .fin 2) :=
+  ⟨pairLaw_nanarg .nanargmax (Or.inl rfl) (fun ps => (ps.headD (.nan, .nan)).2) (.fin 99) (.fin 55) Grp.AEx.pssN
+    (by decide) (by decide +kernel), by decide +kernel⟩
+
+open E2E Grp.AEx in
+/-- C06 end to end on concrete inputs (NOT a general proof): three chunkings / trees of `argmax` over 9 elements, 3
+    labels + a dropped element + an absent label, ties across chunk boundaries – all agree with the specification, and
+    the indices are global ones -/
+example : runKnown (mkCall Rargmax .npg 4 2) (.mapreduce false) true [3, 3, 3] (codeKeys c9) v9
+      = specResult .argmax Rargmax c9 v9 4
+    ∧ runKnown (mkCall Rargmax .npg 4 2) (.mapreduce false) true [1, 1, 1, 1, 1, 1, 1, 1, 1] (codeKeys c9) v9
+      = specResult .argmax Rargmax c9 v9 4
+    ∧ runKnown (mkCall Rargmax .npg 4 3) (.mapreduce false) true [9] (codeKeys c9) v9
+      = specResult .argmax Rargmax c9 v9 4
+    ∧ specResult .argmax Rargmax c9 v9 4 = .ok [Val.fin 2, Val.fin 1, Val.fin 8, Val.fin (-1)] := by
+  decide +kernel
+
+open E2E Grp.AEx in
+/-- `nanargmax` with all-NaN blocks but every label's maximum above `-inf`: correct -/
+example : runKnown (mkCall Rnanargmax .npg 3 2) (.mapreduce false) true [1, 3, 3, 2] (codeKeys c9) v9n
+      = specResult .nanargmax Rnanargmax c9 v9n 3
+    ∧ specResult .nanargmax Rnanargmax c9 v9n 3 = .ok [Val.fin 2, Val.fin 6, Val.fin 8] := by
+  decide +kernel
+
+open E2E Grp.GEx in
+/-- `nanlast` on non-float data through `_grouped_combine`, 4 blocks, binary tree -/
+example : runKnown (mkCall Rnanlast .npg 4 2) (.mapreduce false) false [2, 1, 3, 2] (codeKeys codes8) vals8
+      = specResult .nanlast Rnanlast codes8 vals8 4
+    ∧ specResult .nanlast Rnanlast codes8 vals8 4 = .ok [Val.fin 2, Val.fin (-7), Val.fin 5, Val.nan] :=
+  ⟨nanfirst_nanlast_grouped_eq_spec Rnanlast .nanlast (Or.inr rfl) (mkCall Rnanlast .npg 4 2) 4 false
+      [2, 1, 3, 2] codes8 vals8 rfl rfl rfl (by decide +kernel) codes8_ok rfl (by decide)
+      (by decide +kernel) (by decide) rfl (by decide +kernel), by decide +kernel⟩
+
+/-- order matters: no commutativity is available (and none is used) -/
+example : combineVal .nanfirst ([[Val.fin 1], [Val.fin 2]].map (blockVal .nanfirst Val.nan))
+    ≠ combineVal .nanfirst ([[Val.fin 2], [Val.fin 1]].map (blockVal .nanfirst Val.nan)) := by decide +kernel
+
 end Flox.C06
